@@ -35,7 +35,7 @@ def run(ctx):
     ctx.trusted = TRUSTED
     # coqc of the theorem file (~30 s: 30 Print Assumptions) runs while the real code is exercised
     import threading
-    coq_thread = threading.Thread(target=ctx.coq_file, args=(os.path.join(C.COQ, "props", "C11.v"),))
+    coq_thread = threading.Thread(target=K.coq_obligations, args=(ctx, "C11"))
     coq_thread.start()
     try:
         bad = C.hygiene()
